@@ -289,7 +289,9 @@ class GatherUnit(Unit):
         self.ledger = SharedMap(ex, 'ledger').init(st, self.L0, z3.Int('n0'))
         self.lock = Lock(ex, 'notfull_lock').init(st)
         self.cond = Condition(ex, self.lock, '_pipeline_notfull').init(st)
-        self.me = Rec(ex, 'self', immutable=True).init(st, _q_out=self.qout, _uid_to_futures=self.ledger, _pipeline_notfull=self.cond)
+        self.cap = z3.Int('capacity')
+        st.assume(self.cap >= 1)
+        self.me = Rec(ex, 'self', immutable=True).init(st, _q_out=self.qout, _uid_to_futures=self.ledger, _pipeline_notfull=self.cond, _capacity=self.cap)
         st.env['self'] = self.me
         self.qn = QueueWriter(ex, 'q_notify')
         self.qn.init(st)
@@ -559,7 +561,9 @@ class AGatherUnit(Unit):
                 s = s.fork()
                 s.ghost['notified_this'] = s.ghost['notified_this'] + 1
                 return [('ok', s, NONE)]
-        self.me = Rec(ex, 'self', immutable=True).init(st, _q_out=self.qout, _uid_to_futures=self.ledger, _pipeline_notfull=CondModel(ex, 'cond'), _pipeline_notfull_notifications=self.notifs)
+        self.cap = z3.Int('capacity')
+        st.assume(self.cap >= 1)
+        self.me = Rec(ex, 'self', immutable=True).init(st, _q_out=self.qout, _uid_to_futures=self.ledger, _pipeline_notfull=CondModel(ex, 'cond'), _pipeline_notfull_notifications=self.notifs, _capacity=self.cap)
         st.env['self'] = self.me
         ex.globals['perf_counter'] = GhostClock()
         st.ghost['clock'] = z3.RealVal(0)
